@@ -74,6 +74,10 @@ fn mk_key(i: usize, k3name: &str) -> Key {
         0 => Key::from_parts("m", vec![Label::new("a", "1"), Label::new("b", "2")]),
         1 => Key::from_static_parts("m", &L_AB),
         2 => Key::from_parts(String::from("m"), vec![Label::new("a", "1")]),
+        // two labels with the SAME name and different values, supplied in either order: equal keys (key equality treats
+        // two labels as an unordered pair), so one storage
+        5 => Key::from_parts("z", vec![Label::new("zone", "a"), Label::new("zone", "b")]),
+        6 => Key::from_parts("z", vec![Label::new("zone", "b"), Label::new("zone", "a")]),
         // equal to k1 again, derived from an already hashed base key
         4 => Key::from_parts("m", vec![Label::new("a", "1")]).with_extra_labels(vec![Label::new("b", "2")]),
         _ => Key::from_name(k3name.to_string()),
@@ -109,6 +113,12 @@ fn alphabet() -> Vec<Op> {
     a.push(Op::Clear);
     a.extend([Op::Visit(C), Op::Visit(G), Op::Visit(H), Op::Handles(C), Op::Handles(G), Op::Handles(H)]);
     a
+}
+
+/// second, small alphabet: only the pair of equal keys whose two labels share a name
+fn alphabet_samename() -> Vec<Op> {
+    use Kind::*;
+    vec![Op::Goc(G, 5), Op::Goc(G, 6), Op::Goc(C, 6), Op::Get(G, 5), Op::Get(G, 6), Op::Del(G, 5), Op::Del(G, 6), Op::Retain(G, Pred::DropAll), Op::Visit(G), Op::Handles(G), Op::Clear]
 }
 
 type Model = BTreeMap<(Kind, String), usize>;
@@ -238,9 +248,9 @@ fn apply_model(m: &mut Model, next_id: &mut usize, op: Op, k3: &str) -> String {
     }
 }
 
-fn e3(ctx: &Ctx, res: &mut PartResult, depth: usize, first: Option<usize>) {
+fn e3(ctx: &Ctx, res: &mut PartResult, depth: usize, first: Option<usize>, samename: bool) {
     res.engine = "E3 bounded exhaustive op sequences on the real Registry vs a map reference".into();
-    let alpha = alphabet();
+    let alpha = if samename { alphabet_samename() } else { alphabet() };
     let k3 = find_k3();
     let shards = std::thread::available_parallelism().map(|x| x.get()).unwrap_or(1).next_power_of_two();
     let mut states = vseq::States::new();
@@ -323,7 +333,7 @@ fn e3(ctx: &Ctx, res: &mut PartResult, depth: usize, first: Option<usize>) {
     for (sig, msg, seq) in fails {
         res.violation(&sig, msg, json!({"seq": seq}));
     }
-    res.sample(json!({"ops": format!("{:?}", [alpha[0], alpha[1], alpha[12], alpha[25]]), "shards": shards}));
+    res.sample(json!({"ops": format!("{:?}", [alpha[0], alpha[1], alpha[alpha.len() / 2], alpha[alpha.len() - 2]]), "shards": shards}));
 }
 
 // ------------------------------------------------------------------ E1
@@ -450,6 +460,8 @@ fn parts(ctx: &Ctx) -> Vec<PartSpec> {
         v.push(PartSpec::new("e3-d4-1shard", json!({"depth": 4})).cpus("0").budget(150.0));
         v.push(PartSpec::new("e3-d3-2shards", json!({"depth": 3})).cpus("0,1"));
         v.push(PartSpec::new("e3-d3-16shards", json!({"depth": 3})));
+        v.push(PartSpec::new("e3-samename-d4-16shards", json!({"depth": 4, "samename": true})));
+        v.push(PartSpec::new("e3-samename-d4-1shard", json!({"depth": 4, "samename": true})).cpus("0"));
         for s in ["create-create-delete", "create-retain-clear", "two-kinds-two-keys", "shared-static-key", "histogram-gauge-race", "two-removers", "remover-vs-sweeps"] {
             v.push(PartSpec::new(&format!("e1-{}-pb2", s), json!({"e1": s, "pb": 2})).cpus("0"));
         }
@@ -462,6 +474,8 @@ fn parts(ctx: &Ctx) -> Vec<PartSpec> {
         }
         v.push(PartSpec::new("e3-d4-2shards", json!({"depth": 4})).cpus("0,1").budget(1500.0));
         v.push(PartSpec::new("e3-d4-16shards", json!({"depth": 4})).budget(1500.0));
+        v.push(PartSpec::new("e3-samename-d6-16shards", json!({"depth": 6, "samename": true})).budget(1500.0));
+        v.push(PartSpec::new("e3-samename-d6-1shard", json!({"depth": 6, "samename": true})).cpus("0").budget(1500.0));
         for s in ["create-create-delete", "create-retain-clear", "two-kinds-two-keys", "shared-static-key", "histogram-gauge-race", "two-removers", "remover-vs-sweeps"] {
             v.push(PartSpec::new(&format!("e1-{}-pb3", s), json!({"e1": s, "pb": 3})).cpus("1").budget(1500.0));
         }
@@ -487,7 +501,7 @@ fn run(ctx: &Ctx, spec: &PartSpec) -> PartResult {
         };
         vsched::explore(&scn, &Cfg { max_bound: spec.arg["pb"].as_u64().unwrap_or(2) as usize, horizon: 20000 }, ctx, &mut res);
     } else {
-        e3(ctx, &mut res, spec.arg["depth"].as_u64().unwrap_or(3) as usize, spec.arg["first"].as_u64().map(|x| x as usize));
+        e3(ctx, &mut res, spec.arg["depth"].as_u64().unwrap_or(3) as usize, spec.arg["first"].as_u64().map(|x| x as usize), spec.arg["samename"].as_bool().unwrap_or(false));
     }
     res
 }
